@@ -344,9 +344,11 @@ fn gen_cfg(rng: &mut Rng) -> CfgGen {
                 let (b, l) = *rng.pick(&cand);
                 prefix_of(true, b, l)
             } else {
-                let len = match rng.below(5) {
+                // mostly longer than /8 so that the whole of 127/8 is not covered all the time
+                let len = match rng.below(10) {
                     0 => *rng.pick(&[0u8, 8, 16, 24, 32]),
-                    _ => rng.range(0, 32) as u8,
+                    1 => rng.range(0, 8) as u8,
+                    _ => rng.range(9, 32) as u8,
                 };
                 let mut b = bits;
                 match rng.below(6) {
@@ -924,7 +926,10 @@ struct World<'a> {
     conns: Vec<Conn>,
     history: Vec<String>,
     aborted: bool,
+    /// ended after a violation that leaves the daemon in a state outside the model
+    tainted: bool,
     trace: bool,
+    index: u64,
 }
 
 fn role_name(r: Role) -> &'static str {
@@ -945,7 +950,7 @@ fn add_policies(g: &mut Global) -> Result<(), String> {
     Ok(())
 }
 
-async fn build_world<'a>(cfg: &CfgGen, rep: &'a mut Report, trace: bool) -> Result<World<'a>, String> {
+async fn build_world<'a>(cfg: &CfgGen, rep: &'a mut Report, trace: bool, index: u64) -> Result<World<'a>, String> {
     let (active_tx, active_rx) = mpsc::unbounded_channel::<TcpStream>();
     let (ktx, _krx) = mpsc::unbounded_channel();
     let (btx, _brx) = mpsc::unbounded_channel();
@@ -1043,7 +1048,9 @@ async fn build_world<'a>(cfg: &CfgGen, rep: &'a mut Report, trace: bool) -> Resu
         conns: Vec::new(),
         history: Vec::new(),
         aborted: false,
+        tainted: false,
         trace,
+        index,
     })
 }
 
@@ -1077,6 +1084,7 @@ impl<'a> World<'a> {
     }
 
     fn abort(&mut self, why: &str) {
+        eprintln!("[C16] history abandoned (configuration index {}): {}; last steps: {:?}", self.index, why, self.history.iter().rev().take(5).collect::<Vec<_>>());
         self.rep.inconclusive(why);
         self.aborted = true;
     }
@@ -1331,6 +1339,9 @@ impl<'a> World<'a> {
                         "a connection the statement does not admit became a session",
                         w,
                     );
+                    // the daemon is now in a state the model does not describe (two sessions share
+                    // one FSM slot): the history ends here, the runtime and its tasks are dropped
+                    self.tainted = true;
                 }
             }
             Adm::Unjudged(why) => self.rep.count(&format!("unjudged:admission:{}", why)),
@@ -1803,16 +1814,22 @@ impl<'a> World<'a> {
             }
         }
         // now everything is quiescent again: a further connection in that direction is judged
-        if !self.aborted {
-            self.op_connect(addr, role, Drive::Silent, None, true).await;
+        if !self.aborted && !self.tainted {
+            self.refresh();
+            if matches!(self.admission(&addr, role), Adm::Refuse(_)) {
+                self.rep.count("replace-while-connected:duplicate-probed");
+                self.op_connect(addr, role, Drive::Silent, None, true).await;
+            } else {
+                self.rep.count("replace-while-connected:probe-not-judgeable");
+            }
         }
     }
 }
 
 // ------------------------------------------------------------------ one configuration + one history
 
-async fn run_scenario(cfg: &CfgGen, rng: &mut Rng, rep: &mut Report, n_ops: usize, trace: bool) {
-    let mut w = match build_world(cfg, rep, trace).await {
+async fn run_scenario(cfg: &CfgGen, rng: &mut Rng, rep: &mut Report, n_ops: usize, trace: bool, index: u64) {
+    let mut w = match build_world(cfg, rep, trace, index).await {
         Ok(w) => w,
         Err(e) => {
             rep.inconclusive(&format!("harness: generated configuration not loadable: {}", e));
@@ -1828,7 +1845,7 @@ async fn run_scenario(cfg: &CfgGen, rng: &mut Rng, rep: &mut Report, n_ops: usiz
     let mut first: Vec<IpAddr> = w.universe.clone();
     rng.shuffle(&mut first);
     let mut step = 0usize;
-    while step < n_ops && !w.aborted {
+    while step < n_ops && !w.aborted && !w.tainted {
         step += 1;
         // connections the daemon's own active-connect tasks may have produced are not part of the history
         while let Ok(s) = w.active_rx.try_recv() {
@@ -1912,7 +1929,7 @@ async fn run_scenario(cfg: &CfgGen, rng: &mut Rng, rep: &mut Report, n_ops: usiz
             } else {
                 let base = *rng.pick(&w.universe);
                 let (v6, bits) = addr_bits(&base);
-                let len = if v6 { *rng.pick(&[0u8, 1, 64, 127, 128]) } else { rng.range(0, 32) as u8 };
+                let len = if v6 { *rng.pick(&[0u8, 1, 64, 127, 128]) } else if rng.chance(1, 8) { rng.range(0, 8) as u8 } else { rng.range(9, 32) as u8 };
                 let p = prefix_of(v6, bits, len);
                 if !w.groups[gi].prefixes.iter().any(|x| x.text == p.text) {
                     w.op_prefix(gi, p, true).await;
@@ -1921,6 +1938,10 @@ async fn run_scenario(cfg: &CfgGen, rng: &mut Rng, rep: &mut Report, n_ops: usiz
         }
     }
     // ---- wind down: every connection closes, then the peer table must be the configured one
+    if w.tainted {
+        w.rep.count("histories-ended-at-an-admission-violation");
+        return;
+    }
     if !w.aborted {
         w.log("close everything".into());
         let live: Vec<usize> = (0..w.conns.len()).filter(|i| !w.conns[*i].done).collect();
@@ -2240,8 +2261,8 @@ fn run() {
     install_panic_hook();
     let mut rng = Rng::new(params.seed ^ 0xC16);
     let part = params.get("part").unwrap_or("all").to_string();
-    let rt = tokio::runtime::Builder::new_current_thread().enable_all().build().expect("runtime");
     if part == "all" || part == "grmirror" {
+        let rt = tokio::runtime::Builder::new_current_thread().enable_all().build().expect("runtime");
         let n = params.n(20_000, 400_000);
         let mut r2 = rng.fork();
         // PeerSession::new_for_test creates (never polled) tokio timers
@@ -2265,9 +2286,12 @@ fn run() {
                 }
             }
             rep.extra.retain(|(k, _)| k != "last_configuration_index");
+            // one runtime per history: whatever tasks a history leaves behind end with it
+            let rt = tokio::runtime::Builder::new_current_thread().enable_all().build().expect("runtime");
             let res = std::panic::catch_unwind(std::panic::AssertUnwindSafe(|| {
-                rt.block_on(run_scenario(&cfg, &mut r, &mut rep, n_ops, trace));
+                rt.block_on(run_scenario(&cfg, &mut r, &mut rep, n_ops, trace, i));
             }));
+            drop(rt);
             if res.is_err() {
                 let (loc, msg) = take_panic();
                 if loc.contains("verif/harness") || loc.contains("c16.rs") {
@@ -2281,8 +2305,6 @@ fn run() {
                 }
             }
         }
-        // let cancelled tasks unwind
-        rt.block_on(async { tokio::task::yield_now().await });
     }
     let _ = rep.finish();
 }
